@@ -364,6 +364,23 @@ package meta
 //@   callee metabase.putIntAttribute
 //@   pureeffect
 //@   requires [integer_index_only_for_integer_values] valueIsInteger() || resultOf(a4, "strconv.FormatUint")
+// The numeric system attributes (creation epoch, payload length) are unsigned 64-bit header
+// fields: the integer indexed for them is that very number - non-negative, also beyond 2^63 -
+// the one whose decimal text goes to the plain indexes.
+//@ ghost field formattedNumber(x int) uint64
+//@ callrule c03_header_number_as_text in PutMetadataForObject
+//@   property C03
+//@   callee strconv.FormatUint
+//@   pureeffect
+//@   assigns formattedNumber
+//@   defines formattedNumber(0) == a0
+//@ callrule c03_header_number_indexed_as_itself in PutMetadataForObject
+//@   property C03
+//@   callee metabase.putIntAttribute
+//@   requires [integer_entry_is_the_unsigned_header_value] resultOf(a4, "strconv.FormatUint") ==> !a5.neg && leval(a5.mag, 0, 4) == wide(formattedNumber(0))
+//@ func PutMetadataForObject
+//@   property C03
+//@   opt wide=272
 //@ callrule c03_plain_entry_for_non_integers in PutMetadata*
 //@   property C03
 //@   optional
